@@ -45,19 +45,73 @@ K_DERIVED = ("mj_loadModelBuffer overwrites the size mj_makeModel derived (nname
              "inside m->buffer (out-of-bounds write in bufread)")
 
 
-def _key(k: str) -> str:
-    """driver key -> canonical key (one per unvalidated field / root cause)."""
+K_VALID_OVF = ("mj_validateReferences: adr + num is computed in int and overflows for large values (undefined behaviour; the "
+               "wrapped sum passes the bound check)")
+
+
+K_NEG1 = ("mj_validateReferences accepts -1 for every id / address array (generic test `adrsmin < -1`), also where -1 is "
+          "not a legal value (e.g. body_parentid, geom_bodyid, *_adr of non-empty ranges)")
+
+
+_MENTIONED = None
+
+
+def _mentioned():
+    """names of the model arrays that mj_validateReferences looks at (only used to word the keys)."""
+    global _MENTIONED
+    if _MENTIONED is None:
+        try:
+            src = open(os.path.join(build.REPO, "src/engine/engine_io.c")).read()
+            a = src.index("mj_validateReferences(const mjModel* m)")
+            b = src.index("\n}\n", a)
+            body = src[a:b]
+            _MENTIONED = set(re.findall(r"X\((\w+),", body)) | set(re.findall(r"m->(\w+)\[", body))
+            for row in re.findall(r"X\(\w+,\s*\w+,\s*\w+\s*,\s*m->(\w+)", body):
+                _MENTIONED.add(row)
+        except (OSError, ValueError):
+            _MENTIONED = set()
+    return _MENTIONED
+
+
+def _gap_key(field: str, fault: str) -> str:
+    """canonical key of a validation gap: by field and by the class of the corrupted value."""
+    field = re.sub(r"\[\d+\]|_\d+$", "", field)
+    if not field.startswith("n") and not field.startswith("opt.") and "+" not in field and field not in _mentioned():
+        return "mj_validateReferences does not check " + field
+    try:
+        v = int(fault.split()[-1])
+    except ValueError:
+        v = None
+    if "+" in field:
+        return "loader accepts inconsistent size pair"
+    if v == -1 and not field.startswith("n") and not field.startswith("opt."):
+        return K_NEG1
+    if v is not None and v < 0:
+        return "loader accepts negative " + field
+    return "loader accepts too large or inconsistent " + field
+
+
+def _key(k: str, fault: str) -> str:
+    """driver key -> canonical key."""
     if k.startswith("unvalidated:"):
-        lab = k.split(":", 1)[1]
-        if "+" in lab:
-            return "unvalidated size pair"     # refined by the caller with the crash / first failing relation
-        return "loader accepts out-of-bounds " + lab
+        return _gap_key(k.split(":", 1)[1], fault)
     return k
+
+
+class _DedupPart(core.Part):
+    """Part.violation keeps at most 50 records: record each canonical key once per job so that no key is dropped."""
+
+    def violation(self, key, what, replay=None):
+        seen = self.__dict__.setdefault("_seen", set())
+        if key in seen:
+            return
+        seen.add(key)
+        core.Part.violation(self, key, what, replay)
 
 
 def _job(job):
     exe, name, mjb, plan, table, lo, hi, exercise = job
-    part = core.Part()
+    part = _DedupPart()
     objs = rx.objs_for("asan", exe)
     r = rx.subprocess.run([exe, "run", mjb, plan, table, str(lo), str(hi), "4096", str(exercise)], capture_output=True,
                           text=True, env=rx.env())
@@ -85,7 +139,10 @@ def _job(job):
                 labels = open(plan).read().splitlines()
             fault = labels[int(p)] if p.isdigit() and int(p) < len(labels) else "?"
             part.add("violating_points", 1)
-            part.violation(_key(key), "%s: %s [fault line: %s]" % (name, what, fault), dict(model=name, fault=fault))
+            ck = _key(key, fault)
+            if key.startswith("unvalidated:"):
+                part["extra"]["gap: %s | %s" % (ck[:60], re.sub(r"\[\d+\]|_\d+$", "", fault.split(" ", 1)[0]))] = 1
+            part.violation(ck, "%s: %s [fault line: %s]" % (name, what, fault), dict(model=name, fault=fault))
         elif line.startswith("CRASH "):
             _, p, rest = line.split(" ", 2)
             if labels is None:
@@ -105,8 +162,14 @@ def _job(job):
             part.add("crash_points", 1)
             if "bufread" in names and "mj_loadModelBuffer" in names:
                 key = K_DERIVED
+            elif "integer overflow" in kind and "mj_validateReferences" in names:
+                key = K_VALID_OVF
+            elif "mj_loadModelBuffer" in names or "mj_validateReferences" in names:
+                key = "crash inside the loader after corrupting %s: %s" % (field, kind)
             else:
-                key = "crash after corrupting %s: %s in %s" % (field, kind, next((x for x in names if x and not x.startswith("__")), fn))
+                # the loader accepted the image and the bounds table holds, but using the model is not memory safe
+                key = _gap_key(field, fault)
+                part["extra"]["gap: %s | %s" % (key[:60], field)] = 1
             part.violation(key, "%s: fault '%s': process died: %s; frames %s" % (name, fault, rest[:300], "<".join(names[:4])),
                            dict(model=name, fault=fault))
     part["evaluations"] += n
@@ -172,6 +235,9 @@ def run(ctx):
     stats = {}
     for name, m in P.models(lib, offs):
         img = _roundtrip(ctx, lib, name, m)
+        if not ctx.thorough and name not in ("kitchen", "hinge"):
+            m.free()          # quick: round trip only for the other small models
+            continue
         lay = P.Layout(lib, m, offs, img)               # raises HarnessError if the derived layout is wrong
         ndiff = lay.differential_check(lib, m, img)
         size = len(img)
@@ -193,10 +259,10 @@ def run(ctx):
             ctx.extra["cap: truncation lengths of %s" % name] = "%d of %d" % (len(L), size)
         else:
             plan += P.plan_truncation(size)
-        ints, st = P.plan_ints(lay, sizes, header, 8 if (big and not ctx.thorough) else None)
+        ints, st = P.plan_ints(lay, sizes, header, 2 if (big and not ctx.thorough) else None)
         if st["capped_arrays"]:
             ctx.exhaustive = False
-            ctx.extra["cap: int arrays of %s limited to 8 elements" % name] = st["capped_arrays"]
+            ctx.extra["cap: int arrays of %s limited to first and last element" % name] = st["capped_arrays"]
         plan += ints
         npairs = nbytes = 0
         if ctx.thorough:
@@ -220,7 +286,8 @@ def run(ctx):
             fh.write("\n".join(plan) + "\n")
         shard = 6000 if big else 12000
         for lo in range(0, len(plan), shard):
-            jobs.append((exe, name, mjb, pl, table, lo, min(len(plan), lo + shard), 1))
+            # the body-less model trips UBSan's nonnull check (mju_copy(NULL, NULL, 0)) already unmodified: table only
+            jobs.append((exe, name, mjb, pl, table, lo, min(len(plan), lo + shard), 0 if name == "empty" else 1))
         m.free()
     core.pmap(ctx, _chunk, jobs, nchunks=len(jobs))
     ctx.extra["models"] = stats
